@@ -12,7 +12,7 @@ RULE = ("Cases: (consistency) methods {hilbert,nht,quad} x sample rates {64..400
         "1-3 columns; (sinusoid) pure cosines with >=6 cycles per record, f <= sr/12, amplitude over 3 decades, start "
         "phase in [0,2pi); (roundtrip) frequency profiles {constant, ramp, sinusoidally modulated, random smooth} in 1-3 "
         "columns through phase_from_freq -> freq_from_phase; (scale) x -> c*x for c=2^k (|k|<=8) and real c in "
-        "[1e-3,1e3], plus amplitude_normalise sign/scale invariance; (stack) 3-D [samples x imfs x imfs2] input vs its 2-D slices; (columns) 2-4 column sets, optionally with one non-oscillating column (constant / ramp / zero / single bump) and in C / column-major / strided layout, vs each column alone. Oracle: shapes; 0<=IP<=2pi (exact 2pi counted); "
+        "[1e-3,1e3], plus amplitude_normalise sign/scale invariance; (stack) 3-D [samples x imfs x imfs2] input vs its 2-D slices; (reuse) one array object filled with two IMF sets in turn; (columns) 2-4 column sets, optionally with one non-oscillating column (constant / ramp / zero / single bump) and in C / column-major / strided layout, vs each column alone. Oracle: shapes; 0<=IP<=2pi (exact 2pi counted); "
         "IF == sr*gradient(unwrap(IP))/2pi (1e-6 rel); interior-half medians |IF-f|/f, |IA-A|/A, circular |IP-truth| "
         "within calibrated tolerances (hilbert/nht also pointwise); roundtrip[i] == (f[i]+f[i+1])/2 inside, f[1], "
         "f[-1] at the ends (1e-9); IP/IF unchanged and IA scaled under c (1e-12 dyadic, 1e-6 real). Non-trivial: "
@@ -320,7 +320,47 @@ def oracle_columns(case, rec):
     return True
 
 
+@st.composite
+def reuse_case(draw):
+    a = draw(amfm_case())
+    b = draw(amfm_case())
+    a['n'] = b['n'] = 600
+    b['ncols'] = a['ncols']
+    b['sr'] = a['sr']
+    b['method'] = a['method']
+    return {'a': a, 'b': b}
+
+
+def oracle_reuse(case, rec):
+    """The transform of a buffer must describe the buffer's *current* contents: fill one array object with IMF set A,
+    transform, overwrite it in place with IMF set B, transform again - equal to the transform of a fresh copy of B."""
+    import emd
+    a, b = case['a'], case['b']
+    xa = amfm(a['n'], a['sr'], a['k'], a['f_rel'], a['am'], a['fm'], a['ncols'])
+    xb = amfm(b['n'], b['sr'], b['k'], b['f_rel'], b['am'], b['fm'], b['ncols'])
+    n = min(xa.shape[0], xb.shape[0])
+    xa, xb = xa[:n].copy(), xb[:n].copy()
+    meth = a['method']
+    buf = xa.copy()
+    ft(emd, buf, a['sr'], meth, 'reuse')
+    emd.utils.amplitude_normalise(buf)
+    buf[...] = xb
+    IP, IF, IA = ft(emd, buf, a['sr'], meth, 'reuse')
+    nx = np.asarray(emd.utils.amplitude_normalise(buf))
+    ip2, if2, ia2 = ft(emd, xb.copy(), a['sr'], meth, 'reuse')
+    nx2 = np.asarray(emd.utils.amplitude_normalise(xb.copy()))
+    if not (np.array_equal(IP, ip2, equal_nan=True) and np.array_equal(IF, if2, equal_nan=True) and np.array_equal(IA, ia2, equal_nan=True)):
+        raise Violation('C09/reuse/transform-describes-earlier-contents-of-the-array/' + meth,
+                        'max |IF - IF_fresh| = %.3g' % np.abs(IF - if2).max())
+    if not np.array_equal(nx, nx2, equal_nan=True):
+        raise Violation('C09/reuse/amplitude_normalise-describes-earlier-contents', '')
+    rec.cls('method=' + meth)
+    return True
+
+
 CLAUSES = [
+    Clause('C09.reuse', oracle_reuse, strategy=reuse_case(), quick=300, thorough=6000, shards=(4, 16),
+           nt_rule='every evaluated pair of IMF sets'),
     Clause('C09.columns', oracle_columns, strategy=columns_case(), quick=600, thorough=12000, shards=(8, 16),
            nt_rule='every evaluated multi-column set'),
     Clause('C09.stack', oracle_stack, strategy=stack_case(), quick=240, thorough=6000, shards=(8, 16),
